@@ -30,6 +30,20 @@ static void apply_op(TopologyKernel &m, unsigned op, unsigned a, unsigned b) {
     if (b & 1) { if (a & 4) m.enable_face_bottom_up_incidences(true); if (a & 2) m.enable_edge_bottom_up_incidences(true); if (a & 1) m.enable_vertex_bottom_up_incidences(true); }
     else { if (a & 1) m.enable_vertex_bottom_up_incidences(true); if (a & 2) m.enable_edge_bottom_up_incidences(true); if (a & 4) m.enable_face_bottom_up_incidences(true); }
     break;
+  case OP_SET_E: {  // a = edge, b = from * nv + to
+    unsigned nv = (unsigned)m.n_vertices(); m.set_edge(EH((int)a), VH((int)(b / nv)), VH((int)(b % nv))); break; }
+  case OP_SET_F: {  // a = face, b = variant: 0 rotate the halfedge list by one, 1 reverse the orientation (reversed list of opposite halfedges)
+    std::vector<HEH> hes = m.face(FH((int)a)).halfedges(), out; out.reserve(hes.size());
+    if (b == 0) { for (size_t k = 1; k < hes.size(); ++k) out.push_back(hes[k]); out.push_back(hes[0]); }
+    else { for (size_t k = hes.size(); k > 0; --k) out.push_back(hes[k - 1].opposite_handle()); }
+    m.set_face(FH((int)a), out); break; }
+  case OP_SET_C: {  // a = cell, b = variant: 0 rotate the halfface list by one, 1 reverse the list
+    std::vector<HFH> hfs = m.cell(CH((int)a)).halffaces(), out; out.reserve(hfs.size());
+    if (b == 0) { for (size_t k = 1; k < hfs.size(); ++k) out.push_back(hfs[k]); out.push_back(hfs[0]); }
+    else { for (size_t k = hfs.size(); k > 0; --k) out.push_back(hfs[k - 1]); }
+    m.set_cell(CH((int)a), out); break; }
+  case OP_ADD_F: {  // a, b: a = v0 * nv + v1, b = v2 (three distinct live vertices)
+    unsigned nv = (unsigned)m.n_vertices(); m.add_face(vec3(VH((int)(a / nv)), VH((int)(a % nv)), VH((int)b))); break; }
   default: break;
   }
 }
@@ -37,12 +51,14 @@ static void apply_op(TopologyKernel &m, unsigned op, unsigned a, unsigned b) {
 static unsigned op_arity_count(const TopologyKernel &m, unsigned op) {
   unsigned nv = (unsigned)m.n_vertices(), ne = (unsigned)m.n_edges(), nf = (unsigned)m.n_faces(), nc = (unsigned)m.n_cells();
   switch (op) {
+  case OP_NONE: return 1;
   case OP_DEL_V: return nv; case OP_DEL_E: return ne; case OP_DEL_F: return nf; case OP_DEL_C: return nc;
   case OP_ADD_V: case OP_ADD_NV: case OP_GC: case OP_CLEAR: return 1;
   case OP_ADD_E: case OP_ADD_E_DUP: case OP_SWAP_V: return nv * nv;
   case OP_SWAP_E: return ne * ne; case OP_SWAP_F: return nf * nf; case OP_SWAP_C: return nc * nc;
   case OP_BU_TOGGLE: return 14;   // subsets 1..7 x two re-enable orders
   case OP_SET_MODE: return 4; case OP_BU_OFF: return 8;
+  case OP_SET_E: return ne * nv * nv; case OP_SET_F: return nf * 2; case OP_SET_C: return nc * 2; case OP_ADD_F: return nv * nv * nv;
   default: return 0;
   }
 }
@@ -55,6 +71,9 @@ static void op_decode(const TopologyKernel &m, unsigned op, unsigned idx, unsign
   case OP_SWAP_F: a = idx / nf; b = idx % nf; break;
   case OP_SWAP_C: a = idx / nc; b = idx % nc; break;
   case OP_BU_TOGGLE: a = 1 + idx / 2; b = idx % 2; break;
+  case OP_SET_E: a = idx / (nv * nv); b = idx % (nv * nv); break;
+  case OP_SET_F: case OP_SET_C: a = idx / 2; b = idx % 2; break;
+  case OP_ADD_F: a = idx / nv; b = idx % nv; break;
   default: break;
   }
 }
@@ -66,6 +85,10 @@ static bool op_valid(const TopologyKernel &m, unsigned op, unsigned a, unsigned 
   case OP_DEL_F: return !m.is_deleted(FH((int)a));
   case OP_DEL_C: return !m.is_deleted(CH((int)a));
   case OP_ADD_E: case OP_ADD_E_DUP: return !m.is_deleted(VH((int)a)) && !m.is_deleted(VH((int)b)) && a != b;
+  case OP_SET_E: { unsigned nv = (unsigned)m.n_vertices(); unsigned f = b / nv, t = b % nv; return !m.is_deleted(EH((int)a)) && !m.is_deleted(VH((int)f)) && !m.is_deleted(VH((int)t)) && f != t; }
+  case OP_SET_F: return !m.is_deleted(FH((int)a));
+  case OP_SET_C: return !m.is_deleted(CH((int)a));
+  case OP_ADD_F: { unsigned nv = (unsigned)m.n_vertices(); unsigned v0 = a / nv, v1 = a % nv, v2 = b; return v0 != v1 && v1 != v2 && v0 != v2 && !m.is_deleted(VH((int)v0)) && !m.is_deleted(VH((int)v1)) && !m.is_deleted(VH((int)v2)); }
   default: return true;
   }
 }
